@@ -97,6 +97,14 @@ func (t *decTr) stmt(s ast.Stmt) string {
 			}
 		}
 	case *ast.DeclStmt:
+		// `var x bool` without a value: x is false from here on (it may be tested)
+		if gd, ok := x.Decl.(*ast.GenDecl); ok && gd.Tok == token.VAR && len(gd.Specs) == 1 {
+			if vs, ok := gd.Specs[0].(*ast.ValueSpec); ok && len(vs.Values) == 0 && len(vs.Names) == 1 {
+				if id, ok := vs.Type.(*ast.Ident); ok && id.Name == "bool" {
+					return "DAssign " + q(vs.Names[0].Name) + " " + q("false")
+				}
+			}
+		}
 		// `var x T` without a value: nothing happens
 		if gd, ok := x.Decl.(*ast.GenDecl); ok && gd.Tok == token.VAR {
 			all := true
@@ -178,6 +186,9 @@ func (t *decTr) stmt(s ast.Stmt) string {
 		if x.Tok == token.CONTINUE && x.Label == nil {
 			return "DContinue"
 		}
+		if x.Tok == token.BREAK && x.Label == nil {
+			return "DBreak"
+		}
 	case *ast.DeferStmt:
 		// defer f(...): recorded where it is registered
 		return "DCall " + q("defer "+t.render(x.Call))
@@ -197,6 +208,9 @@ func (t *decTr) stmt(s ast.Stmt) string {
 			return "DCall " + q(t.render(c))
 		}
 	case *ast.ReturnStmt:
+		if len(x.Results) == 0 {
+			return "DReturn " + q("")
+		}
 		if len(x.Results) == 1 {
 			if id, ok := x.Results[0].(*ast.Ident); ok && id.Name == "nil" {
 				return "DReturn " + q("nil")
